@@ -382,9 +382,12 @@ func (m *Mux) RegisterConn(ctx context.Context, cc *grpc.ClientConn) error {
 		return err
 	}
 
+	// Publish only what was registered without an error.
+	if err := stream.CloseSend(); err != nil {
+		return err
+	}
 	m.storeState(s)
-
-	return stream.CloseSend()
+	return nil
 }
 
 func (m *Mux) DropConn(ctx context.Context, cc *grpc.ClientConn) bool {
